@@ -5,6 +5,8 @@ T == ndJsonDeserialize(IOEnv.TRACE_FILE)
 VARIABLE l
 Report(ok, what) == IF ok THEN TRUE ELSE PrintT(what)
 Check(e) ==
+  \* what a field type parses (and composes) to in a process that parsed another type before, against a process of its own
+  /\ Report(e.ev # "order" \/ e.same, <<"BAD", "result-depends-on-what-was-parsed-before", l>>)
   /\ Report(e.canon_out = "ok", <<"BAD", "canonical-spelling-rejected", l>>)
   /\ Report(e.canon_out # "ok" \/ e.compose_in_set, <<"BAD", "composed-spelling-parses-differently", l>>)
   /\ Report(e.canon_out # "ok" \/ e.out = "ok", <<"BAD", "respelling-rejected", l>>)
